@@ -1122,7 +1122,8 @@ class FileBuilder:
         try:
             return self._simple_operation_executor.file_comparison_result(
                 filename, file_comparison.name)
-        except (FileNotFoundError, IsADirectoryError):
+        except (FileNotFoundError, IsADirectoryError, NotADirectoryError):
+            # NotADirectoryError: A parent of the file is a regular file
             return None
 
     def _is_build_file_cached(self, operation):
